@@ -88,7 +88,7 @@ PROPS = {
              "bound": "3 A2ML definitions whose sequence element can match zero tokens + one IF_DATA block: loading terminates", "timeout": 300, "extra_modules": ["tokenizer"], "max_steps": 600000},
         ] + [
             {"engine": "E2", "module": "lib", "harness": "h_comment_layout_lineends", "msg_prefix": "C03", "functions": ["load_from_string", "tokenizer::tokenize_core", "tokenizer::count_newlines", "parser::ParserState::get_line_offset", "writer::Writer::add_group", "A2lFile::write_to_string"],
-             "bound": "block comment with 0..=3 inner line breaks x 0..=2 line breaks behind it x 3 positions (file head, in front of /begin MODULE, in front of /end MODULE) x line ends {LF, CRLF, CR} (108 documents)", "timeout": 300, "extra_modules": ["tokenizer"], "must_cover": ["comment_layout_end"]},
+             "bound": "block comment with 0..=3 inner line breaks x 0..=2 line breaks behind it x 3 positions (file head, in front of /begin MODULE, in front of /end MODULE) x line ends {LF, CRLF, CR} x comment in column 0 / indented by blanks / by a tab (324 documents)", "timeout": 300, "extra_modules": ["tokenizer"], "must_cover": ["comment_layout_end"]},
         ] + [
             {"engine": "E2", "module": "lib", "harness": "h_ifdata_soup_%d" % n, "functions": ["load_from_string", "ifdata::parse_ifdata", "ifdata::parse_unknown_ifdata_start", "ifdata::parse_unknown_ifdata", "ifdata::parse_unknown_taggedstruct", "parser::get_string", "tokenizer::handle_a2ml"],
              "bound": "uninterpreted IF_DATA holding every %d-lexeme soup over {/begin B, /end B, ident, hex number, string, empty string, block comment, line comment, embedded A2ML section (raw text '\"' / 'x y'), /include without a name}, closed or cut off, strict and non-strict: loading returns, accepted text loads again" % n,
@@ -161,6 +161,8 @@ PROPS = {
              "bound": "MOD_COMMON / MOD_PAR present or not with arbitrary ids < 2^31", "timeout": 120},
             {"engine": "E2", "module": "lib", "harness": "h_sort_new_many_children", "msg_prefix": "C15", "functions": ["A2lFile::sort_new_items", "sort::sort_new_items", "sort::sort_objectlist_new", "writer::Writer::add_group", "writer::Writer::sort_function", "A2lFile::write_to_string", "load_from_string"],
              "bound": "modules with 24 / 18 / 10 placed children (MEASUREMENT and UNIT interleaved) + 4 / 12 / 16 new MEASUREMENTs pushed in 4 rotations, then one new UNIT, then two more MEASUREMENTs, sort_new_items + write after each batch: write order = list order, placed elements keep their order, reload equal, repeated cycles identical. An unstable sort is modelled demonically above 20 elements (runs of equal elements reversed); the native replay decides", "timeout": 400, "extra_modules": ["tokenizer"], "max_steps": 150000000, "must_cover": ["sort_new_many_children_end"]},
+            {"engine": "E2", "module": "lib", "harness": "h_sort_new_all_kinds", "functions": ["A2lFile::sort_new_items", "sort::sort_new_items (all 20 per-kind calls)", "A2lFile::write_to_string"],
+             "bound": "the all-kinds module (two placed elements in each of the 20 named lists + unnamed parts): three sort_new_items calls leave the output unchanged; then one new TYPEDEF_BLOB and one new BLOB are placed behind their kind", "timeout": 400, "extra_modules": ["tokenizer"], "max_steps": 60000000, "must_cover": ["sort_new_all_kinds_end"]},
             {"engine": "E2", "module": "sort", "harness": "h_sort_new_unnamed_lists_s", "functions": ["sort::sort_new_items"],
              "bound": "one call on a module with <= 2 IF_DATA and <= 1 USER_RIGHTS (each placed with an arbitrary distinct id < 2^31 or new, in any Vec order) and one placed UNIT", "timeout": 300, "must_cover": ["full unnamed lists"]},
             {"engine": "E2", "module": "sort", "harness": "h_sort_new_unnamed_lists", "functions": ["sort::sort_new_items"], "quick": False,
@@ -253,7 +255,7 @@ PROPS = {
              "bound": "one document generated from the DSL of the tree under check that holds every block and keyword valid at version 1.71 once (465 lines): strict load without diagnostics, write, reload equal (== and field by field), second write identical, every token kept", "timeout": 900, "extra_modules": ["tokenizer"], "max_steps": 300000000,
              "must_cover": ["generated document and fingerprint module are in place"]},
             {"engine": "E2", "module": "lib", "harness": "h_comment_layout_lineends", "msg_prefix": "C01", "functions": ["load_from_string", "tokenizer::tokenize_core", "tokenizer::count_newlines", "parser::ParserState::get_line_offset", "writer::Writer::add_group", "A2lFile::write_to_string"],
-             "bound": "block comment with 0..=3 inner line breaks x 0..=2 line breaks behind it x 3 positions (file head, in front of /begin MODULE, in front of /end MODULE) x line ends {LF, CRLF, CR} (108 documents)", "timeout": 300, "extra_modules": ["tokenizer"], "must_cover": ["comment_layout_end"]},
+             "bound": "block comment with 0..=3 inner line breaks x 0..=2 line breaks behind it x 3 positions (file head, in front of /begin MODULE, in front of /end MODULE) x line ends {LF, CRLF, CR} x comment in column 0 / indented by blanks / by a tab (324 documents)", "timeout": 300, "extra_modules": ["tokenizer"], "must_cover": ["comment_layout_end"]},
         ] + [
             {"engine": "E2", "module": "lib", "harness": "h_ifdata_soup_%d" % n, "msg_prefix": "C01", "functions": ["load_from_string", "ifdata::parse_unknown_ifdata_start", "a2ml::GenericIfData::write", "A2lFile::write_to_string"],
              "bound": "every %d-lexeme soup inside an uninterpreted IF_DATA (see C03), strict and non-strict: whatever is accepted is written to text that loads again (known finding D20 excludes soups with a line comment that is not the last lexeme while it is listed)" % n,
@@ -320,7 +322,7 @@ PROPS = {
              "bound": "the every-element document (writer's own format, 465 lines, hex and decimal notation alternating): reproduced byte for byte", "timeout": 900, "extra_modules": ["tokenizer"], "max_steps": 300000000,
              "must_cover": ["generated document and fingerprint module are in place"]},
             {"engine": "E2", "module": "lib", "harness": "h_comment_layout_lineends", "msg_prefix": "C05", "functions": ["load_from_string", "tokenizer::tokenize_core", "tokenizer::count_newlines", "parser::ParserState::get_line_offset", "writer::Writer::add_group", "A2lFile::write_to_string"],
-             "bound": "block comment with 0..=3 inner line breaks x 0..=2 line breaks behind it x 3 positions (file head, in front of /begin MODULE, in front of /end MODULE) x line ends {LF, CRLF, CR} (108 documents)", "timeout": 300, "extra_modules": ["tokenizer"], "must_cover": ["comment_layout_end"]},
+             "bound": "block comment with 0..=3 inner line breaks x 0..=2 line breaks behind it x 3 positions (file head, in front of /begin MODULE, in front of /end MODULE) x line ends {LF, CRLF, CR} x comment in column 0 / indented by blanks / by a tab (324 documents)", "timeout": 300, "extra_modules": ["tokenizer"], "must_cover": ["comment_layout_end"]},
         ],
     },
     "C11": {
@@ -529,6 +531,8 @@ PROPS = {
             {"engine": "E2", "module": "lib", "harness": "h_c20_versions", "quick": False, "functions": ["specification::*::parse of every version-gated element", "parser::ParserState::check_block_version_lower", "parser::ParserState::check_enumitem_version_lower"],
              "bound": "111 version-gated documents of the reference grammar x file version symbolic over the six ASAP2 versions x strict / non-strict, observed on both builds", "timeout": 900, "extra_modules": ["tokenizer"], "max_steps": 6000000, "validate": 10,
              "must_cover": ["version-open documents are in place"]},
+            {"engine": "E2", "module": "lib", "harness": "h_c20_include_comment", "functions": ["load", "specification::{Module,Function}::parse (comments of included files)", "A2lFile::write_to_string", "A2lFile::merge_includes"],
+             "bound": "an include file that holds comments and an element, included at MODULE level or inside a FUNCTION: diagnostics, written text before and after merge_includes observed on both builds", "timeout": 400, "extra_modules": ["tokenizer"], "max_steps": 6000000, "validate": 2},
             {"engine": "E2", "module": "lib", "harness": "h_c20_module_ops", "functions": ["A2lFile::check", "A2lFile::merge_modules", "A2lFile::cleanup", "generated PartialEq / A2lObjectName impls"],
              "bound": "merge template merged with a renamed copy of itself, then cleanup (1 concrete path)", "timeout": 600, "extra_modules": ["tokenizer"], "max_steps": 80000000, "validate": 1},
         ],
